@@ -294,13 +294,36 @@ func ruleRangePredicates(p *Prog, r *Report, rule string) {
 	}
 	// tFiles.overlaps, sorted branch
 	if fn := resolveFn(p, r, "leveldb", "tFiles.overlaps"); fn != nil {
-		checkCallArg(p, r, fn, "probe-earliest-internal-key", "(leveldb.tFiles).searchMax", 2, func(v ssa.Value) bool {
-			c, ok := callValue(v, "leveldb.makeInternalKey")
-			if !ok || keyRole(c.Call.Args[1], 4) != "p2" {
-				return false
+		// the lower bound is positioned at the FIRST table that can hold umin: the first whose largest
+		// key is not below umin. Of the search helpers (whose predicates are pinned above) only
+		// searchMax with the earliest internal key of umin — (umin, maxSeq, seek), which sorts before
+		// every real entry of umin — has that meaning; the user-key searches are strict (> probe) and
+		// skip a table whose largest user key EQUALS umin.
+		r.Site(1)
+		nPos := 0
+		posBad := ""
+		for _, h := range []string{"searchMax", "searchMaxUkey", "searchMin", "searchMinUkey"} {
+			for _, c := range findCalls(fn, "(leveldb.tFiles)."+h) {
+				nPos++
+				cc := callCommon(c)
+				switch h {
+				case "searchMax":
+					mk, ok := callValue(cc.Args[2], "leveldb.makeInternalKey")
+					if !ok || keyRole(mk.Call.Args[1], 4) != "p2" || !isConstNamed(mk.Call.Args[2], "keyMaxSeq") || !isConstNamed(mk.Call.Args[3], "keyTypeSeek") {
+						posBad = "searchMax at " + p.Pos(c.Pos()) + " is not probed with makeInternalKey(_, umin, keyMaxSeq, keyTypeSeek), the earliest internal key of umin"
+					}
+				case "searchMaxUkey":
+					posBad = "the lower bound is positioned with searchMaxUkey at " + p.Pos(c.Pos()) + " (first table with imax.ukey > probe): a table whose largest user key equals umin is skipped, so an overlapping table is reported as not overlapping"
+				default:
+					posBad = "the lower bound is positioned with " + h + " at " + p.Pos(c.Pos()) + ", which searches on the tables' smallest keys"
+				}
 			}
-			return isConstNamed(c.Call.Args[2], "keyMaxSeq") && isConstNamed(c.Call.Args[3], "keyTypeSeek")
-		}, "makeInternalKey(_, umin, keyMaxSeq, keyTypeSeek): the earliest internal key of umin")
+		}
+		if nPos == 0 {
+			r.Fail(fnName(fn), "lower-bound-position:unresolved-anchor", "the sorted overlap test positions its lower bound with one of the table search helpers", "no search helper call found", p.Pos(fn.Pos()), nil)
+		} else {
+			r.Check(posBad == "", fnName(fn), "lower-bound-position", "the sorted overlap test starts at the first table whose largest key is not below umin (searchMax with the earliest internal key of umin)", posBad, p.Pos(fn.Pos()))
+		}
 		r.Site(1)
 		bad := ""
 		for _, past := range []bool{false, true} {
